@@ -398,6 +398,11 @@ func (b *Bridge) DecodeAny(t Ty, d *D, excl []string, ignore int) string {
 			outcome = classifyDec(err, got)
 			return
 		}
+		if b.Interp {
+			got, err := b.interpUnmarshal(r, t)
+			outcome = classifyDec(err, got)
+			return
+		}
 		p := b.NewNamed(t.Ref)
 		err := p.Interface().(restlicodec.Unmarshaler).UnmarshalRestLi(r)
 		outcome = classifyDec(err, b.Get(p.Elem(), t))
@@ -619,6 +624,11 @@ func (x *runner) runC04() {
 		for _, av := range anyVals {
 			var outcome string
 			panicked, pv := hx.Recover(func() {
+				if x.b.Interp {
+					_, err := x.b.interpUnmarshal(restlicodec.NewInterfaceReader(av), t)
+					outcome = fmt.Sprint(err != nil)
+					return
+				}
 				p := x.b.NewNamed(t.Ref)
 				err := p.Interface().(restlicodec.Unmarshaler).UnmarshalRestLi(restlicodec.NewInterfaceReader(av))
 				outcome = fmt.Sprint(err != nil)
@@ -642,6 +652,9 @@ func (x *runner) runC06() {
 	if x.cfg.Tier == "thorough" {
 		n = 100
 	}
+	// whole query strings (parameters with required fields deleted at any depth inside their
+	// values) through the query-parameters reader, against the model
+	x.runQueryDecK(n)
 	for _, t := range x.recordTypes() {
 		if x.env.Find(t.Ref).Kind != "record" {
 			continue
@@ -665,8 +678,7 @@ func (x *runner) runC06() {
 				x.env.MissingPaths(t, doc, "", &miss)
 				var impl, op string
 				if f == "any" {
-					impl = x.b.DecodeAny(t, doc, nil, 0)
-					x.askAny(t, doc, nil, 0, impl, "untyped reader")
+					impl = x.decodeAnyK(t, doc, "untyped reader")
 					op = "any " + t.Ref + " " + doc.JSON(JSONStyle{})
 				} else {
 					data, ok := renderFor(f, doc, x.rng)
@@ -1083,8 +1095,7 @@ func (x *runner) runC11() {
 				for _, f := range []Fmt{"json", "header", "any"} {
 					var impl, op string
 					if f == "any" {
-						impl = x.b.DecodeAny(t, doc, nil, 0)
-						x.askAny(t, doc, nil, 0, impl, "untyped reader")
+						impl = x.decodeAnyK(t, doc, "untyped reader")
 						op = "any " + t.Ref + " " + doc.JSON(JSONStyle{})
 					} else {
 						data, _ := renderFor(f, doc, x.rng)
@@ -1111,8 +1122,7 @@ func (x *runner) runC11() {
 						}
 						var impl, op string
 						if f == "any" {
-							impl = x.b.DecodeAny(t, doc, nil, 0)
-							x.askAny(t, doc, nil, 0, impl, "untyped reader")
+							impl = x.decodeAnyK(t, doc, "untyped reader")
 							op = "any " + t.Ref + " " + doc.JSON(JSONStyle{})
 						} else {
 							data, _ := renderFor(f, doc, x.rng)
@@ -1138,8 +1148,7 @@ func (x *runner) runC11() {
 				for _, f := range []Fmt{"json", "header", "query", "any"} {
 					var impl, op string
 					if f == "any" {
-						impl = x.b.DecodeAny(t, doc, nil, 0)
-						x.askAny(t, doc, nil, 0, impl, "untyped reader")
+						impl = x.decodeAnyK(t, doc, "untyped reader")
 						op = "any " + t.Ref + " " + strconv.Itoa(l)
 					} else {
 						data, _ := renderFor(f, doc, x.rng)
@@ -1188,8 +1197,7 @@ func (x *runner) runC11() {
 				for _, f := range []Fmt{"json", "header", "any"} {
 					var impl, op string
 					if f == "any" {
-						impl = x.b.DecodeAny(t, doc, nil, 0)
-						x.askAny(t, doc, nil, 0, impl, "untyped reader")
+						impl = x.decodeAnyK(t, doc, "untyped reader")
 						op = "any " + t.Ref + " " + s
 					} else {
 						data, _ := renderFor(f, doc, x.rng)
@@ -1253,8 +1261,7 @@ func (x *runner) runC13() {
 			for _, f := range []Fmt{"json", "header", "query", "any"} {
 				var impl, op string
 				if f == "any" {
-					impl = x.b.DecodeAny(t, ref, nil, 0)
-					x.askAny(t, ref, nil, 0, impl, "untyped reader")
+					impl = x.decodeAnyK(t, ref, "untyped reader")
 					op = "any " + t.Ref + " " + ref.JSON(JSONStyle{})
 				} else {
 					data, _ := renderFor(f, ref, x.rng)
